@@ -187,7 +187,11 @@ Proof.
     + intros i Hi. rewrite F2 by lia. apply Ho; lia.
 Qed.
 
-(* ---- known finding: insert(pos, count, v) in the middle, copy throws while filling the gap ------------------------- *)
+(* ---- finding F11: insert(pos, count, v) in the middle, copy throws while filling the gap ----------------------------
+   [insert_cnt_th] below is the model of the code BEFORE the repair "fix: insert of several elements before end() leaves the
+   vector unchanged when an element copy throws" (shift_right, then fill_after_shift building the raw part FIRST, no handler);
+   [insert_count_middle_refuted] is its machine-checked witness.  The model of the repaired code is [insert_cnt_fix], further
+   down, with [insert_cnt_fix_strong].  With pos = size both are std::uninitialized_fill_n alone. *)
 (* moves are noexcept: plain memory transformers with lifetime errors *)
 Definition move_construct (m : mem) (dst src : nat) : mem + err :=
   match m dst, m src with
@@ -255,4 +259,371 @@ Proof.
     replace (size + count - size) with count in R by lia.
     destruct (uninit_fill_n m th size count v) as [m2 th2|m2|e]; cbn [fill_n_alive]; [tauto|tauto|assumption].
   - assert (count = 0) by lia. subst count. cbn [fill_n_alive]. rewrite Nat.add_0_r. assumption.
+Qed.
+
+(* ---- the repaired insert(pos, count, v) ----------------------------------------------------------------------------------
+   vectorcommon.hpp after "fix: insert of several elements before end() leaves the vector unchanged when an element copy throws":
+
+     if (count > 0) {
+       ...adjustCapacity...
+       if (nElemsToShift == 0) { std::uninitialized_fill_n(pos, count, newV); }
+       else {
+         shift_right(pos, nElemsToShift, count);
+         try { fill_after_shift(pos, nElemsToShift, count, newV); }
+         catch (...) { unshift_right(pos, nElemsToShift, count); throw; }
+       }
+       setSize(size() + count);
+     }
+
+   fill_after_shift (not trivially relocatable), new order:
+     if (n < count) { std::fill_n(first, n, v); std::uninitialized_fill_n(first + n, count - n, v); } else { std::fill_n(first, count, v); }
+   unshift_right (not trivially relocatable):
+     std::move(first + count, first + count + n, first); amc::destroy_n(first + std::max(n, count), std::min(n, count));
+
+   Copies (assignment, construction) are the throwing-capable events; moves and destructions are noexcept. *)
+Definition is_alive (s : slot) : bool := match s with Live _ | Moved => true | _ => false end.
+Lemma is_alive_of_live s : is_live s = true -> is_alive s = true.
+Proof. destruct s; cbn [is_live is_alive]; congruence. Qed.
+Lemma is_live_inv s : is_live s = true -> exists v, s = Live v.
+Proof. destruct s as [| |v|]; cbn [is_live]; try discriminate. intros _. exists v. reflexivity. Qed.
+Lemma move_construct_ok m dst src v : m dst = Raw -> m src = Live v -> move_construct m dst src = inl (upd (upd m dst (Live v)) src Moved).
+Proof. intros Hd Hs. unfold move_construct. rewrite Hd, Hs. reflexivity. Qed.
+Lemma move_assign_ok m dst src v : is_alive (m dst) = true -> m src = Live v -> move_assign m dst src = inl (upd (upd m dst (Live v)) src Moved).
+Proof. intros Hd Hs. unfold move_assign. rewrite Hs. destruct (m dst); try discriminate; reflexivity. Qed.
+Lemma copy_assign_alive_ok m th dst v : is_alive (m dst) = true ->
+  copy_assign_alive m th dst v = let (t, th') := tick th in if t then Threw m else Done (upd m dst (Live v)) th'.
+Proof. intros Hd. unfold copy_assign_alive. destruct (m dst); try discriminate; reflexivity. Qed.
+
+(* std::move(src, src + n, dst) with dst < src: lowest element first *)
+Fixpoint unshift_move (m : mem) (src n dst : nat) : mem + err :=
+  match n with 0 => inl m | S k => match move_assign m dst src with inl m1 => unshift_move m1 (S src) k (S dst) | inr e => inr e end end.
+Definition unshift_right (m : mem) (first n count : nat) : mem + err :=
+  match unshift_move m (first + count) n first with
+  | inl m1 => destroy_n m1 (first + Nat.max n count) (Nat.min n count)
+  | inr e => inr e end.
+Definition fill_after_shift_fix (m : mem) (th : option nat) (first n count : nat) (v : Z) : out :=
+  if n <? count then
+    match fill_n_alive m th first n v with Done m1 th1 => uninit_fill_n m1 th1 (first + n) (count - n) v | o => o end
+  else fill_n_alive m th first count v.
+Definition insert_cnt_fix (m : mem) (th : option nat) (size pos count : nat) (v : Z) : out :=
+  if count =? 0 then Done m th else
+  let n := size - pos in
+  if n =? 0 then uninit_fill_n m th pos count v else
+  match shift_right_cnt m pos n count with
+  | inr e => Err e
+  | inl m1 => match fill_after_shift_fix m1 th pos n count v with
+              | Threw m2 => match unshift_right m2 pos n count with inl m3 => Threw m3 | inr e => Err e end
+              | o => o end
+  end.
+
+(* -- the noexcept pieces ------------------------------------------------------------------------------------------------ *)
+Lemma uninit_move_n_ok : forall n m src dst,
+  src + n <= dst -> (forall k, k < n -> is_live (m (src + k)) = true) -> (forall k, k < n -> m (dst + k) = Raw) ->
+  exists m', uninit_move_n m src n dst = inl m' /\
+    (forall j, dst <= j < dst + n -> m' j = m (j - dst + src)) /\
+    (forall j, src <= j < src + n -> m' j = Moved) /\
+    (forall j, ~ (dst <= j < dst + n) -> ~ (src <= j < src + n) -> m' j = m j).
+Proof.
+  induction n as [|n IH]; intros m src dst Hd Hs Hr; cbn [uninit_move_n].
+  - exists m; repeat split; intros; try lia; reflexivity.
+  - pose proof (Hs 0 ltac:(lia)) as Hv. rewrite Nat.add_0_r in Hv. pose proof (Hr 0 ltac:(lia)) as Hr0. rewrite Nat.add_0_r in Hr0.
+    destruct (is_live_inv _ Hv) as [v Es]. rewrite (move_construct_ok m dst src v Hr0 Es).
+    destruct (IH (upd (upd m dst (Live v)) src Moved) (S src) (S dst)) as [m' (E & P1 & P2 & P3)]; [lia| | |].
+    + intros k Hk. pose proof (Hs (S k) ltac:(lia)) as Hw. replace (src + S k) with (S src + k) in Hw by lia. updsimp.
+    + intros k Hk. pose proof (Hr (S k) ltac:(lia)) as Hw. replace (dst + S k) with (S dst + k) in Hw by lia. updsimp.
+    + exists m'; split; [exact E|]. split; [|split].
+      * intros j Hj. destruct (Nat.eq_dec j dst) as [->|Hne].
+        -- rewrite P3 by lia. replace (dst - dst + src) with src by lia. updsimp.
+        -- rewrite P1 by lia. replace (j - S dst + S src) with (j - dst + src) by lia. updsimp.
+      * intros j Hj. destruct (Nat.eq_dec j src) as [->|Hne]; [rewrite P3 by lia; updsimp|apply P2; lia].
+      * intros j H1 H2. rewrite P3 by lia. updsimp.
+Qed.
+
+(* std::move_backward: moves [first, first+n) up by d > 0 slots, highest element first *)
+Lemma move_backward_ok : forall n m first d,
+  0 < d -> (forall k, k < n -> is_live (m (first + k)) = true) -> (forall k, k < n -> is_alive (m (first + d + k)) = true) ->
+  exists m', move_backward m first n (first + d + n) = inl m' /\
+    (forall j, first + d <= j < first + d + n -> m' j = m (j - d)) /\
+    (forall j, first <= j < first + n -> j < first + d -> m' j = Moved) /\
+    (forall j, ~ (first + d <= j < first + d + n) -> ~ (first <= j < first + n) -> m' j = m j).
+Proof.
+  induction n as [|n IH]; intros m first d Hd Hs Ha; cbn [move_backward].
+  - exists m; repeat split; intros; try lia; reflexivity.
+  - replace (first + d + S n - 1) with (first + d + n) by lia.
+    destruct (is_live_inv _ (Hs n ltac:(lia))) as [v Es].
+    rewrite (move_assign_ok m (first + d + n) (first + n) v (Ha n ltac:(lia)) Es).
+    destruct (IH (upd (upd m (first + d + n) (Live v)) (first + n) Moved) first d Hd) as [m' (E & P1 & P2 & P3)].
+    + intros k Hk. pose proof (Hs k ltac:(lia)) as Hw. updsimp.
+    + intros k Hk. pose proof (Ha k ltac:(lia)) as Hw. unfold upd.
+      destruct (Nat.eqb_spec (first + n) (first + d + k)); [reflexivity|].
+      destruct (Nat.eqb_spec (first + d + n) (first + d + k)); [lia|assumption].
+    + exists m'. split; [exact E|]. split; [|split].
+      * intros j Hj. destruct (Nat.eq_dec j (first + d + n)) as [->|Hne].
+        -- rewrite P3 by lia. replace (first + d + n - d) with (first + n) by lia. updsimp.
+        -- rewrite P1 by lia. updsimp.
+      * intros j Hj Hlt. destruct (Nat.eq_dec j (first + n)) as [->|Hne]; [rewrite P3 by lia; updsimp|apply P2; lia].
+      * intros j H1 H2. rewrite P3 by lia. updsimp.
+Qed.
+
+(* shift_right(first, n, count), not trivially relocatable: the n elements end count slots higher, the first min(n, count)
+   slots are left moved-from, the slots of [first + n, first + count) stay raw *)
+Lemma shift_right_cnt_ok m first n count :
+  0 < n -> 0 < count ->
+  (forall k, k < n -> is_live (m (first + k)) = true) -> (forall k, k < count -> m (first + n + k) = Raw) ->
+  exists m', shift_right_cnt m first n count = inl m' /\
+    (forall j, first + count <= j < first + count + n -> m' j = m (j - count)) /\
+    (forall j, first <= j < first + count -> j < first + n -> m' j = Moved) /\
+    (forall j, ~ (first <= j < first + count + n) -> m' j = m j) /\
+    (forall j, first + n <= j < first + count -> m' j = m j).
+Proof.
+  intros Hn Hc Hs Hr. unfold shift_right_cnt. destruct (Nat.ltb_spec count n) as [Hlt|Hge].
+  - destruct (uninit_move_n_ok count m (first + n - count) (first + n)) as [m1 (E1 & A1 & A2 & A3)]; [lia| | |].
+    + intros k Hk. replace (first + n - count + k) with (first + (n - count + k)) by lia. apply Hs. lia.
+    + intros k Hk. apply Hr. lia.
+    + rewrite E1.
+      destruct (move_backward_ok (n - count) m1 first count Hc) as [m2 (E2 & B1 & B2 & B3)].
+      * intros k Hk. rewrite A3 by lia. apply Hs. lia.
+      * intros k Hk. destruct (le_lt_dec (first + n - count) (first + count + k)) as [Hin|Hout].
+        -- rewrite A2 by lia. reflexivity.
+        -- rewrite A3 by lia. apply is_alive_of_live. replace (first + count + k) with (first + (count + k)) by lia. apply Hs. lia.
+      * replace (first + count + (n - count)) with (first + n) in E2 by lia.
+        exists m2. split; [exact E2|]. repeat split.
+        -- intros j Hj. destruct (le_lt_dec (first + n) j) as [Hhi|Hlo].
+           ++ rewrite B3 by lia. rewrite A1 by lia. f_equal. lia.
+           ++ rewrite B1 by lia. apply A3; lia.
+        -- intros j Hj Hjn. destruct (le_lt_dec (first + n - count) j) as [Hhi|Hlo].
+           ++ rewrite B3 by lia. apply A2. lia.
+           ++ apply B2; lia.
+        -- intros j Hj. rewrite B3 by lia. apply A3; lia.
+        -- intros j Hj. lia.
+  - destruct (uninit_move_n_ok n m first (first + count)) as [m1 (E1 & A1 & A2 & A3)]; [lia|assumption| |].
+    + intros k Hk. replace (first + count + k) with (first + n + (count - n + k)) by lia. apply Hr. lia.
+    + exists m1. split; [exact E1|]. repeat split.
+      * intros j Hj. rewrite A1 by lia. f_equal. lia.
+      * intros j Hj Hjn. apply A2. lia.
+      * intros j Hj. apply A3; lia.
+      * intros j Hj. apply A3; lia.
+Qed.
+
+(* std::move downwards by d > 0 slots: every source is read before it is overwritten *)
+Lemma unshift_move_ok : forall n m dst d,
+  0 < d -> (forall k, k < n -> is_live (m (dst + d + k)) = true) -> (forall k, k < n -> is_alive (m (dst + k)) = true) ->
+  exists m', unshift_move m (dst + d) n dst = inl m' /\
+    (forall j, dst <= j < dst + n -> m' j = m (j + d)) /\
+    (forall j, dst + d <= j < dst + d + n -> dst + n <= j -> m' j = Moved) /\
+    (forall j, ~ (dst <= j < dst + n) -> ~ (dst + d <= j < dst + d + n) -> m' j = m j).
+Proof.
+  induction n as [|n IH]; intros m dst d Hd Hs Ha; cbn [unshift_move].
+  - exists m; repeat split; intros; try lia; reflexivity.
+  - pose proof (Hs 0 ltac:(lia)) as Hv. rewrite Nat.add_0_r in Hv. pose proof (Ha 0 ltac:(lia)) as Ha0. rewrite Nat.add_0_r in Ha0.
+    destruct (is_live_inv _ Hv) as [v Es]. rewrite (move_assign_ok m dst (dst + d) v Ha0 Es).
+    replace (S (dst + d)) with (S dst + d) by lia.
+    destruct (IH (upd (upd m dst (Live v)) (dst + d) Moved) (S dst) d Hd) as [m' (E & P1 & P2 & P3)].
+    + intros k Hk. pose proof (Hs (S k) ltac:(lia)) as Hw. replace (dst + d + S k) with (S dst + d + k) in Hw by lia. updsimp.
+    + intros k Hk. pose proof (Ha (S k) ltac:(lia)) as Hw. replace (dst + S k) with (S dst + k) in Hw by lia. unfold upd.
+      destruct (Nat.eqb_spec (dst + d) (S dst + k)); [reflexivity|].
+      destruct (Nat.eqb_spec dst (S dst + k)); [lia|assumption].
+    + exists m'. split; [exact E|]. split; [|split].
+      * intros j Hj. destruct (Nat.eq_dec j dst) as [->|Hne].
+        -- rewrite P3 by lia. updsimp.
+        -- rewrite P1 by lia. updsimp.
+      * intros j Hj Hge. destruct (Nat.eq_dec j (dst + d)) as [->|Hne]; [rewrite P3 by lia; updsimp|apply P2; lia].
+      * intros j H1 H2. rewrite P3 by lia. updsimp.
+Qed.
+
+(* amc::destroy_n on objects that may be moved-from *)
+Lemma destroy_n_alive_spec : forall n m first, (forall k, k < n -> is_alive (m (first + k)) = true) ->
+  exists m', destroy_n m first n = inl m' /\ (forall j, first <= j < first + n -> m' j = Raw) /\ (forall j, ~ (first <= j < first + n) -> m' j = m j).
+Proof. induction n as [|n IH]; intros m first H; cbn [destroy_n].
+  - exists m. repeat split; intros; try lia; reflexivity.
+  - pose proof (H 0 ltac:(lia)) as H0. rewrite Nat.add_0_r in H0.
+    assert (Ed : destroy m first = inl (upd m first Raw)) by (unfold destroy; destruct (m first); try discriminate; reflexivity).
+    rewrite Ed. destruct (IH (upd m first Raw) (S first)) as [m' (E' & P1 & P2)].
+    + intros k Hk. pose proof (H (S k) ltac:(lia)) as Hw. replace (first + S k) with (S first + k) in Hw by lia. updsimp.
+    + exists m'. split; [exact E'|]. split.
+      * intros j Hj. destruct (Nat.eq_dec j first) as [->|]; [rewrite P2 by lia; updsimp|apply P1; lia].
+      * intros j Hj. rewrite P2 by lia. updsimp. Qed.
+
+(* unshift_right undoes shift_right_cnt: needs the first min(n, count) slots alive (assigned or still moved-from) and the n
+   shifted elements; it does not look at [first + n, first + count) (raw when n < count) *)
+Lemma unshift_right_ok m first n count :
+  0 < n -> 0 < count ->
+  (forall j, first <= j < first + Nat.min n count -> is_alive (m j) = true) ->
+  (forall j, first + count <= j < first + count + n -> is_live (m j) = true) ->
+  exists m', unshift_right m first n count = inl m' /\
+    (forall j, first <= j < first + n -> m' j = m (j + count)) /\
+    (forall j, first + Nat.max n count <= j < first + count + n -> m' j = Raw) /\
+    (forall j, ~ (first <= j < first + n) -> ~ (first + Nat.max n count <= j < first + count + n) -> m' j = m j).
+Proof.
+  intros Hn Hc Ha Hs. unfold unshift_right.
+  destruct (unshift_move_ok n m first count Hc) as [m1 (E1 & P1 & P2 & P3)].
+  - intros k Hk. apply Hs. lia.
+  - intros k Hk. destruct (le_lt_dec (Nat.min n count) k) as [Hhi|Hlo]; [apply is_alive_of_live; apply Hs; lia|apply Ha; lia].
+  - rewrite E1. destruct (destroy_n_alive_spec (Nat.min n count) m1 (first + Nat.max n count)) as [m2 (E2 & D1 & D2)].
+    + intros k Hk. rewrite P2 by lia. reflexivity.
+    + exists m2. split; [exact E2|]. split; [|split].
+      * intros j Hj. rewrite D2 by lia. apply P1. lia.
+      * intros j Hj. apply D1. lia.
+      * intros j H1 H2. rewrite D2 by lia. apply P3; lia.
+Qed.
+
+(* -- the throwing pieces ------------------------------------------------------------------------------------------------ *)
+Lemma fill_n_alive_spec : forall n m th dst v, (forall k, k < n -> is_alive (m (dst + k)) = true) ->
+  match fill_n_alive m th dst n v with
+  | Done m' _ => (forall j, dst <= j < dst + n -> m' j = Live v) /\ (forall j, ~ (dst <= j < dst + n) -> m' j = m j)
+  | Threw m' => (forall j, dst <= j < dst + n -> is_alive (m' j) = true) /\ (forall j, ~ (dst <= j < dst + n) -> m' j = m j)
+  | Err _ => False
+  end.
+Proof. induction n as [|n IH]; intros m th dst v H; cbn [fill_n_alive].
+  - split; intros; try lia; reflexivity.
+  - pose proof (H 0 ltac:(lia)) as H0. rewrite Nat.add_0_r in H0. rewrite (copy_assign_alive_ok m th dst v H0).
+    destruct (tick th) as [[|] th'].
+    + split; [|reflexivity]. intros j Hj. replace j with (dst + (j - dst)) by lia. apply H. lia.
+    + specialize (IH (upd m dst (Live v)) th' (S dst) v).
+      assert (Hn : forall k, k < n -> is_alive (upd m dst (Live v) (S dst + k)) = true).
+      { intros k Hk. pose proof (H (S k) ltac:(lia)) as Hw. replace (dst + S k) with (S dst + k) in Hw by lia. updsimp. }
+      specialize (IH Hn). destruct (fill_n_alive (upd m dst (Live v)) th' (S dst) n v) as [m' th2|m'|e]; [| |assumption].
+      * destruct IH as [P1 P2]. split.
+        -- intros j Hj. destruct (Nat.eq_dec j dst) as [->|]; [rewrite P2 by lia; updsimp|apply P1; lia].
+        -- intros j Hj. rewrite P2 by lia. updsimp.
+      * destruct IH as [P1 P2]. split.
+        -- intros j Hj. destruct (Nat.eq_dec j dst) as [->|]; [rewrite P2 by lia; updsimp|apply P1; lia].
+        -- intros j Hj. rewrite P2 by lia. updsimp.
+Qed.
+
+(* fill_after_shift in its new order: whichever copy throws (an assignment of the alive part, a construction of the raw part),
+   the alive part is still alive and EVERYTHING else is as before - the raw part is raw again: what unshift_right needs *)
+Lemma fill_after_shift_fix_spec m th first n count v :
+  (forall j, first <= j < first + Nat.min n count -> is_alive (m j) = true) ->
+  (forall j, first + n <= j < first + count -> m j = Raw) ->
+  match fill_after_shift_fix m th first n count v with
+  | Done m' _ => (forall j, first <= j < first + count -> m' j = Live v) /\ (forall j, ~ (first <= j < first + count) -> m' j = m j)
+  | Threw m' => (forall j, first <= j < first + Nat.min n count -> is_alive (m' j) = true) /\
+                (forall j, ~ (first <= j < first + Nat.min n count) -> m' j = m j)
+  | Err _ => False
+  end.
+Proof.
+  intros Ha Hr. unfold fill_after_shift_fix. destruct (Nat.ltb_spec n count) as [Hlt|Hge].
+  - pose proof (fill_n_alive_spec n m th first v ltac:(intros k Hk; apply Ha; lia)) as F.
+    destruct (fill_n_alive m th first n v) as [m1 th1|m1|e]; [| |assumption].
+    + destruct F as [F1 F2]. unfold uninit_fill_n.
+      destruct (uninit_fill_loop_spec (count - n) m1 th1 (first + n) (first + n) v) as [(m2 & th2 & E & P1 & P2)|(m2 & E & P1 & P2)];
+        [lia|intros; lia|intros k Hk; rewrite F2 by lia; apply Hr; lia| |]; rewrite E.
+      * split.
+        -- intros j Hj. destruct (le_lt_dec (first + n) j); [apply P1; lia|rewrite P2 by lia; apply F1; lia].
+        -- intros j Hj. rewrite P2 by lia. apply F2. lia.
+      * split.
+        -- intros j Hj. rewrite P2 by lia. rewrite F1 by lia. reflexivity.
+        -- intros j Hj. destruct (le_lt_dec (first + n) j) as [Hhi|Hlo]; [destruct (le_lt_dec (first + count) j) as [Hhi2|Hlo2]|].
+           ++ rewrite P2 by lia. apply F2. lia.
+           ++ rewrite P1 by lia. symmetry. apply Hr. lia.
+           ++ rewrite P2 by lia. apply F2. lia.
+    + destruct F as [F1 F2]. split.
+      * intros j Hj. apply F1. lia.
+      * intros j Hj. apply F2. lia.
+  - pose proof (fill_n_alive_spec count m th first v ltac:(intros k Hk; apply Ha; lia)) as F.
+    destruct (fill_n_alive m th first count v) as [m1 th1|m1|e]; [| |assumption].
+    + exact F.
+    + destruct F as [F1 F2]. split.
+      * intros j Hj. apply F1. lia.
+      * intros j Hj. apply F2. lia.
+Qed.
+
+(* -- the theorem ---------------------------------------------------------------------------------------------------------
+   insert(pos, count, v) anywhere in the vector, within capacity (after adjustCapacity), whichever copy throws:
+   never a lifetime error; an exception leaves EVERY slot exactly as it was (strong guarantee: same elements, nothing alive
+   beyond size, nothing moved-from); completion gives prefix, count copies of v, the old tail count slots higher. *)
+Theorem insert_cnt_fix_strong m th size cap pos count v :
+  Inv m size cap -> pos <= size -> size + count <= cap ->
+  match insert_cnt_fix m th size pos count v with
+  | Done m' _ => (forall j, j < pos -> m' j = m j) /\ (forall j, pos <= j < pos + count -> m' j = Live v) /\
+                 (forall j, pos + count <= j < size + count -> m' j = m (j - count)) /\ Inv m' (size + count) cap
+  | Threw m' => forall j, m' j = m j
+  | Err _ => False
+  end.
+Proof.
+  intros HI Hp Hcap. pose proof HI as (Hsc & Hl & Hr & Ho). unfold insert_cnt_fix.
+  assert (Hfin : forall m', (forall j, pos <= j < pos + count -> m' j = Live v) ->
+            (forall j, pos + count <= j < size + count -> m' j = m (j - count)) ->
+            (forall j, ~ (pos <= j < size + count) -> m' j = m j) ->
+            (forall j, j < pos -> m' j = m j) /\ (forall j, pos <= j < pos + count -> m' j = Live v) /\
+            (forall j, pos + count <= j < size + count -> m' j = m (j - count)) /\ Inv m' (size + count) cap).
+  { intros m' F1 F2 F3. split; [intros j Hj; apply F3; lia|]. split; [exact F1|]. split; [exact F2|].
+    repeat split; [lia| | |].
+    - intros i Hi. destruct (le_lt_dec pos i) as [Hge|Hlt]; [destruct (le_lt_dec (pos + count) i)|].
+      + rewrite F2 by lia. apply Hl. lia.
+      + rewrite F1 by lia. reflexivity.
+      + rewrite F3 by lia. apply Hl. lia.
+    - intros i Hi Hic. rewrite F3 by lia. apply Hr; lia.
+    - intros i Hi. rewrite F3 by lia. apply Ho; lia. }
+  destruct (Nat.eqb_spec count 0) as [->|Hc0].
+  - split; [reflexivity|]. split; [intros; lia|]. split; [intros j Hj; rewrite Nat.sub_0_r; reflexivity|]. rewrite Nat.add_0_r. exact HI.
+  - destruct (Nat.eqb_spec (size - pos) 0) as [Hz|Hnz].
+    + (* at the end: std::uninitialized_fill_n alone *)
+      assert (pos = size) by lia. subst pos. unfold uninit_fill_n.
+      destruct (uninit_fill_loop_spec count m th size size v) as [(m' & th' & E & P1 & P2)|(m' & E & P1 & P2)];
+        [lia|intros; lia|intros k Hk; apply Hr; lia| |]; rewrite E.
+      * apply Hfin; [exact P1|intros; lia|intros j Hj; apply P2; lia].
+      * intros j. destruct (le_lt_dec size j) as [H1|H1]; [destruct (le_lt_dec (size + count) j) as [H2|H2]|]; [apply P2; lia| |apply P2; lia].
+        rewrite P1 by lia. symmetry. apply Hr; lia.
+    + (* in the middle: shift, fill, and unshift when the fill throws *)
+      destruct (shift_right_cnt_ok m pos (size - pos) count ltac:(lia) ltac:(lia)) as [m1 (E1 & S1 & S2 & S3 & S4)].
+      * intros k Hk. apply Hl. lia.
+      * intros k Hk. apply Hr; lia.
+      * rewrite E1.
+        pose proof (fill_after_shift_fix_spec m1 th pos (size - pos) count v) as F.
+        assert (FA : forall j, pos <= j < pos + Nat.min (size - pos) count -> is_alive (m1 j) = true)
+          by (intros j Hj; rewrite S2 by lia; reflexivity).
+        assert (FR : forall j, pos + (size - pos) <= j < pos + count -> m1 j = Raw)
+          by (intros j Hj; rewrite S4 by lia; apply Hr; lia).
+        specialize (F FA FR). destruct (fill_after_shift_fix m1 th pos (size - pos) count v) as [m2 th2|m2|e]; [| |assumption].
+        -- destruct F as [F1 F2]. apply Hfin; [exact F1| |].
+           ++ intros j Hj. rewrite F2 by lia. apply S1. lia.
+           ++ intros j Hj. rewrite F2 by lia. apply S3. lia.
+        -- destruct F as [F1 F2].
+           destruct (unshift_right_ok m2 pos (size - pos) count ltac:(lia) ltac:(lia) F1) as [m3 (E3 & U1 & U2 & U3)].
+           ++ intros j Hj. rewrite F2 by lia. rewrite S1 by lia. apply Hl. lia.
+           ++ rewrite E3. intros j.
+              destruct (le_lt_dec pos j) as [A|A]; [destruct (le_lt_dec size j) as [B|B]|].
+              ** destruct (le_lt_dec (pos + Nat.max (size - pos) count) j) as [C|C]; [destruct (le_lt_dec (size + count) j) as [D|D]|].
+                 --- rewrite U3 by lia. rewrite F2 by lia. apply S3. lia.
+                 --- rewrite U2 by lia. symmetry. apply Hr; lia.
+                 --- rewrite U3 by lia. rewrite F2 by lia. apply S4. lia.
+              ** rewrite U1 by lia. rewrite F2 by lia. rewrite S1 by lia. f_equal. lia.
+              ** rewrite U3 by lia. rewrite F2 by lia. apply S3. lia.
+Qed.
+
+(* consequence: the vector is the same vector after an exception *)
+Corollary insert_cnt_fix_threw_inv m th size cap pos count v m' :
+  Inv m size cap -> pos <= size -> size + count <= cap -> insert_cnt_fix m th size pos count v = Threw m' -> Inv m' size cap.
+Proof.
+  intros HI Hp Hcap E. pose proof (insert_cnt_fix_strong m th size cap pos count v HI Hp Hcap) as T. rewrite E in T.
+  destruct HI as (Hsc & Hl & Hr & Ho). repeat split; [lia| | |]; intros; rewrite T; auto.
+Qed.
+
+Lemma m5_inv : Inv m5 5 9.
+Proof. unfold Inv, m5. repeat split; [lia| | |].
+  - intros i Hi. destruct (Nat.ltb_spec i 5); [reflexivity|lia].
+  - intros i A B. destruct (Nat.ltb_spec i 5); [lia|]. destruct (Nat.ltb_spec i 9); [reflexivity|lia].
+  - intros i Hi. destruct (Nat.ltb_spec i 5); [lia|]. destruct (Nat.ltb_spec i 9); [lia|reflexivity]. Qed.
+
+(* the hypotheses are satisfiable on a non-trivial memory and both outcomes occur.  Same call as [insert_count_middle_refuted]
+   (size 5, capacity 9, insert(begin() + 2, 3, v), the first copy throws): slot 2 holds its element again and slot 5 is raw;
+   with pos = 4 (n = 1 < count = 3) both failure points of fill_after_shift are reached: the assignment ([Some 0]) and the
+   second construction ([Some 2]) *)
+Example insert_cnt_fix_both_outcomes :
+  Inv m5 5 9 /\ 2 <= 5 /\ 5 + 3 <= 9 /\
+  (exists m', insert_cnt_fix m5 (Some 0) 5 2 3 7%Z = Threw m' /\ m' 2 = Live 2%Z /\ m' 4 = Live 4%Z /\ m' 5 = Raw /\ m' 7 = Raw) /\
+  (exists m', insert_cnt_fix m5 (Some 0) 5 4 3 7%Z = Threw m' /\ m' 4 = Live 4%Z /\ m' 5 = Raw /\ m' 7 = Raw) /\
+  (exists m', insert_cnt_fix m5 (Some 2) 5 4 3 7%Z = Threw m' /\ m' 4 = Live 4%Z /\ m' 5 = Raw /\ m' 7 = Raw) /\
+  (exists m' th', insert_cnt_fix m5 (Some 3) 5 2 3 7%Z = Done m' th' /\ th' = Some 0 /\
+     m' 1 = Live 1%Z /\ m' 2 = Live 7%Z /\ m' 4 = Live 7%Z /\ m' 5 = Live 2%Z /\ m' 7 = Live 4%Z /\ m' 8 = Raw) /\
+  (exists m' th', insert_cnt_fix m5 None 5 2 3 7%Z = Done m' th').
+Proof.
+  split; [exact m5_inv|]. split; [lia|]. split; [lia|].
+  split; [eexists; split; [vm_compute; reflexivity|repeat split; reflexivity]|].
+  split; [eexists; split; [vm_compute; reflexivity|repeat split; reflexivity]|].
+  split; [eexists; split; [vm_compute; reflexivity|repeat split; reflexivity]|].
+  split; [eexists; eexists; split; [vm_compute; reflexivity|repeat split; reflexivity]|].
+  eexists; eexists; vm_compute; reflexivity.
 Qed.
